@@ -63,11 +63,12 @@ def handle (args : List String) : String :=
   | ["ofindex", n, i] => Id.run do
       let some n := n.toNat? | return "bad-op"
       let some i := i.toNat? | return "bad-op"
-      if i ≥ 4^n then return "bad-op"
+      if i ≥ 4^n then return "error:assert"   -- goes through `_pauli_index_int_to_str`
       return bitsStr (Pauli.ofIndex n i).toF2List
   | ["idx2str", n, i] => Id.run do
       let some n := n.toNat? | return "bad-op"
       let some i := i.toNat? | return "bad-op"
+      if i ≥ 4^n then return "error:assert"   -- `_pauli_index_int_to_str` asserts 0 ≤ index < 4^n
       return symsStr (Pauli.indexToSyms n i)
   | ["str2idx", s] => Id.run do
       let some s := parseSyms? s | return "bad-op"
